@@ -1,6 +1,7 @@
 import TsrunVerif.Lemmas.CompileEq
 import TsrunVerif.Lemmas.CompileStmt
 import TsrunVerif.Lemmas.CompileNeed
+import TsrunVerif.Lemmas.CompileRegs
 
 /-!
 # C01 (compiler and VM) — property theorems over M-Compile
@@ -184,6 +185,46 @@ theorem leftNested_limit (d : Nat) :
   rw [program_refused_iff]
   simp only [needS, need, need_leftNested]
   split <;> omega
+
+/-- **the register file is never indexed out of range**: every register an instruction of the
+    compiled program names is below the program's register demand `needS s` (the chunk's
+    `register_count`: the driver checks `max_used = needS` on every generated statement) -/
+theorem program_registers_in_file (s : Stmt) (code : List Op) (hc : compileProgram s = some code) :
+    ∀ op ∈ code, ∀ r ∈ opRegs op, r < needS s := by
+  rw [compileProgram_eq] at hc
+  cases hb : codeS s 0 0 with
+  | none => simp [hb] at hc
+  | some body =>
+    simp only [hb, Option.map_some, Option.some.injEq] at hc
+    subst hc
+    intro op hop r hr
+    rcases List.mem_append.mp hop with h | h
+    · have := codeS_regs s 0 0 body hb op h r hr
+      omega
+    · simp only [List.mem_singleton] at h
+      subst h
+      simp [opRegs] at hr
+
+section
+variable {V Err : Type} (sem : Sem V Err)
+
+/-- **the VM never runs off the code**: when the reference semantics of the program terminates
+    (normally or by a throw), no run of the compiled program, whatever its fuel, ends in a fault -/
+theorem program_no_fault (s : Stmt) (code : List Op) (hc : compileProgram s = some code)
+    (fuel : Nat) (env : Env V) (r : Res V Err Unit) (h : evalS sem fuel s env = some r)
+    (regs : Reg → V) (k : Nat) : run sem code k ⟨0, regs, env, []⟩ ≠ some .fault := by
+  intro hf
+  cases r with
+  | ok u env' =>
+    obtain ⟨k', regs', hk⟩ := program_completes sem s code hc fuel env env' u h regs
+    have := run_unique sem _ k k' _ _ hf hk
+    cases this
+  | thrown er env' =>
+    obtain ⟨k', pc, regs', hk⟩ := program_throws sem s code hc fuel env env' er h regs
+    have := run_unique sem _ k k' _ _ hf hk
+    cases this
+
+end
 
 /-! ### non-vacuity: concrete programs through the whole chain (arithmetic on `Int`) -/
 
